@@ -33,14 +33,23 @@ fn one_config(rep: &mut Report, rng: &mut Rng, max_loggers: usize, max_depth: us
     for perm in 0..3 {
         let sink = new_sink();
         let mut prng = Rng::new(rng.next_u64());
-        let cfg = match build_config(&spec, &sink, "", if perm == 0 { None } else { Some(&mut prng) }) {
+        // in the last declaration order some appenders report errors: deliveries to the others must not change
+        let failing: Vec<String> = if perm == 2 {
+            spec.appenders.iter().filter(|_| prng.chance(1, 3)).cloned().collect()
+        } else {
+            vec![]
+        };
+        if !failing.is_empty() {
+            rep.count("configs_with_failing_appenders", 1);
+        }
+        let cfg = match build_config_failing(&spec, &sink, "", if perm == 0 { None } else { Some(&mut prng) }, &failing) {
             Ok(c) => c,
             Err(e) => {
                 rep.violation("C01:valid-config-rejected", json!({"spec": spec.to_json(), "error": e}));
                 return;
             }
         };
-        let logger = match trap::catch(|| log4rs::Logger::new(cfg)) {
+        let logger = match trap::catch(|| log4rs::Logger::new_with_err_handler(cfg, Box::new(|_| {}))) {
             Ok(l) => l,
             Err(p) => {
                 rep.violation(&format!("C01:panic:Logger::new:{}", p.site()),
